@@ -268,7 +268,7 @@ static int do_call(const char *fn, int a1, int a2, int a3, int a4)
 		double v = tempo_val(a2, a3);
 		if (cd->state >= XMP_STATE_PLAYING) {
 			int ts = libxmp_mixer_get_ticksize(cd->s.freq, v * 10, m->rrate, p->bpm);
-			e.tempo_ok = ts >= 0 && ts <= XMP_MAX_FRAMESIZE / 2;
+			e.tempo_ok = ts >= 0 && ts <= XMP_MAX_FRAMESIZE / 4;
 		}
 		ret = xmp_set_tempo_factor(ctx, v);
 	} else if (!strcmp(fn, "stop_module")) {
